@@ -259,6 +259,7 @@ def register(reg):
     )
     _register_parse_range(reg)
     _register_process_range(reg)
+    _register_parse_etags(reg)
 
 
 def _replay_parse_range(reg, c, inputs):
@@ -432,4 +433,61 @@ def _register_process_range(reg):
         raises={"RequestedRangeNotSatisfiable": "accept_ranges and complete_length is not None and complete_length > 0 "
                                                 "and self.g_proc is True"},
         raises_ensures={"RequestedRangeNotSatisfiable": ["self._status_code == old(self._status_code)", "not self.g_wrapped"]},
+    )
+
+
+def _register_parse_etags(reg):
+    """parse_etags (body; the validators above use its trusted summary): the wildcard is recognised only for a BARE `*` -- a
+    quoted tag "*" is an ordinary entity tag (a client that sends `If-None-Match: "x", "*"` has not said "anything") --, a tag
+    is weak exactly when its match carries the W/ prefix, and the scan terminates.  The compiled pattern `_etag_re` is an
+    environment model (one of the two alternatives matched: quoted or raw; the match ends behind its start)."""
+    from pyvc.values import VObj, VBool, VList, NONE, VNone
+    EM = reg.model("EtagMatch", fields={"weak": "Optional[str]", "quoted": "Optional[str]", "raw": "Optional[str]", "e": "int"})
+    reg.contract("model:EtagMatch.groups", prop="C11", trusted=True, param_names=["self"], modifies=[],
+                 returns="Tuple[Optional[str], Optional[str], Optional[str]]",
+                 ensures=["result[0] == self.weak", "result[1] == self.quoted", "result[2] == self.raw"])
+    reg.contract("model:EtagMatch.end", prop="C11", trusted=True, param_names=["self"], returns="int", modifies=[],
+                 ensures=["result == self.e"])
+    EP = reg.model("EtagPattern", fields={})
+    reg.contract(
+        "model:EtagPattern.match", prop="C11", trusted=True, param_names=["self", "value", "pos"], modifies=[],
+        returns=("opt", ("obj", EM)),
+        ensures=["implies(result is not None, pos < result.e and result.e <= len(value))",
+                 "implies(result is not None, (result.quoted is None) != (result.raw is None))",
+                 "implies(result is not None and result.weak is not None, result.weak == 'W/' or result.weak == 'w/')",
+                 "implies(result is not None and result.quoted is not None, "
+                 "        value[pos:result.e].startswith((result.weak if result.weak is not None else '') + '\"' + result.quoted + '\"'))",
+                 "implies(result is not None and result.raw is not None, "
+                 "        value[pos:result.e].startswith((result.weak if result.weak is not None else '') + result.raw))"],
+        note="re.Pattern.match of  ([Ww]/)?(?:\"(.*?)\"|(.*?))(?:\\s*,\\s*|$)  at pos < len(value): exactly one alternative "
+             "takes part; the match consumes at least one character (a separator, or the rest of the text)",
+    )
+    reg.overrides["werkzeug/http.py:_etag_re"] = lambda interp: interp.fresh(("obj", EP), "_etag_re")
+    ER = reg.model("ETagsRec", fields={"star_tag": "bool", "strong": "List[Optional[str]]", "weak": "List[Optional[str]]"})
+
+    def _mk_etags(interp, cv, args, kwargs, node):
+        o = interp.fresh(("obj", ER), "etags")
+        star = kwargs.get("star_tag", args[2] if len(args) > 2 else VBool(False))
+        o.fields["star_tag"] = star
+        o.fields["strong"] = args[0] if len(args) > 0 and not isinstance(args[0], VNone) else VList([])
+        o.fields["weak"] = args[1] if len(args) > 1 and not isinstance(args[1], VNone) else VList([])
+        return o
+    reg.constructors["werkzeug/datastructures/etag.py:ETags"] = _mk_etags
+    reg.contract(
+        "werkzeug/http.py:parse_etags#verify", prop="C11", params={"value": "Optional[str]"}, returns=ER, modifies=[],
+        ghost_after={
+            "is_weak, quoted, raw = match.groups()": ["ghost_q = quoted", "ghost_r = raw"],
+            "weak.append(raw)": ["assert is_weak is not None and raw == (quoted if (quoted is not None and len(quoted) > 0) else ghost_r)"],
+            "strong.append(raw)": ["assert is_weak is None and raw == (quoted if (quoted is not None and len(quoted) > 0) else ghost_r)"],
+        },
+        ensures=[
+            # the wildcard: only a bare, unquoted `*`
+            "implies(result.star_tag, ghost_q is None and ghost_r == '*')",
+            "implies(value is None or len(value) == 0, not result.star_tag and len(result.strong) == 0 and len(result.weak) == 0)",
+        ],
+        raises={},
+        loops={0: {"types": {"strong": "List[Optional[str]]", "weak": "List[Optional[str]]", "ghost_q": "Optional[str]", "ghost_r": "Optional[str]",
+                             "pos": "int"},
+                   "inv": ["0 <= pos", "end == len(value)"],
+                   "decreases": "end - pos"}},
     )
